@@ -292,6 +292,7 @@ def run(tier, seed):
             self.got.append(m)
     nbad = 0
     conn, ct, _ = fakes.ready_client()
+    nrule = [0]
     for si, st in enumerate(states):
         r = st['rule']
         want = set(st['matched'])
@@ -310,18 +311,24 @@ def run(tier, seed):
         results = [('MessageRouter', got)]
         # (b) the rule text the client sends, and (c) what the bus makes of that text
         chits = []
-        d = conn.addMatch(chits.append, arg=a, arg_path=p, **kw)
+        # every other rule also names the emitter by its well-known name: that goes into the text for the daemon (which
+        # knows who owns the name); locally a signal is stamped with the emitter's unique name and the listed
+        # constraints decide
+        nrule[0] += 1
+        skw = {'sender': 'org.ex.Emitter'} if nrule[0] % 2 else {}
+        d = conn.addMatch(chits.append, arg=a, arg_path=p, **dict(kw, **skw))
         calls = fakes.parse_all(ct.take())
         text = calls[0].body[0] if calls and calls[0].member == 'AddMatch' else None
         rid = []
         d.addCallback(rid.append)
         conn.dataReceived(message.MethodReturnMessage(calls[0].serial, destination=':1.7').rawMessage)
-        text_ok = text is not None and parse_rule_text(text) == expected_text(st['text'])
+        text_ok = text is not None and parse_rule_text(text) == expected_text(st['text']) | {(k, v) for k, v in skw.items()}
         got_c = set()
         for i, m in enumerate(reals, 1):
             if m._messageType != 4:
                 continue
             del chits[:]
+            m.sender = ':1.42'           # as stamped by the bus
             conn.signalReceived(m)
             if chits:
                 got_c.add(i if len(chits) == 1 else -i)
@@ -475,7 +482,9 @@ def run(tier, seed):
                                   cfg_consts=cc, initpred='matched = MatchSet(rule) /\\ text = {}', nproc=1,
                                   extra={'RouterData.tla': mc_module(name, msgs, [])})
     chk.canary = {'what': 'one message toggled in a recorded match set', 'rejected': bool(rej)}
-    chk.assumptions = ['sender= and arg0namespace are outside the property and outside the generated rule space',
+    chk.assumptions = ['arg0namespace is outside the property and outside the generated rule space; sender= is not among the constraints '
+                       'the property lists: every other client-level rule names a well-known sender, which must reach the rule text '
+                       'and must not decide local delivery (signals carry the unique name)',
                        'only argument index 0 is constrained in the model (the implementation treats every index alike)']
     return chk.finish(
         rule='TLC computes, for each of the 1440 rules of the universe, the exact set of the %d universe messages it matches '
